@@ -548,10 +548,11 @@ def main() -> None:
         detector_classes = choose_detectors(args, detector_classes)
         for detector in detector_classes:
             tealer.register_detector(detector)
-        group_results = tealer.run_detectors()[0]
-        for output in group_results:
-            # dest is ignored
-            output.generate_output(Path("."))
+        # one list of results for each detector
+        for group_results in tealer.run_detectors():
+            for output in group_results:
+                # dest is ignored
+                output.generate_output(Path("."))
         sys.exit(1)
 
     try:  # pylint: disable=too-many-nested-blocks
